@@ -4,9 +4,7 @@ import (
 	"fmt"
 	"math"
 	"os"
-	"regexp"
 	"runtime"
-	"strconv"
 	"strings"
 	"sync/atomic"
 	"syscall"
@@ -25,6 +23,7 @@ type CostCase struct {
 	Expr   string   `json:"expr,omitempty"` // absolute case: the literal input
 	List   []string `json:"list,omitempty"`
 	Schema *Schema  `json:"schema,omitempty"` // generated family
+	Ns     []int    `json:"ns,omitempty"`     // the consecutive sizes whose growth was judged (replay measures exactly these)
 }
 
 func init() {
@@ -146,12 +145,14 @@ func buildFamily(family string, n int) (expr string, list []string) {
 		leaf := 0
 		expr = gen(n, &leaf)
 	case "n-by-n":
+		// n terms, n entries, every term satisfied (so the AND chain is evaluated to its end and the
+		// cost is a monotone function of n): term i is family id i, the list holds the same ids
 		fam := tb.FamilyIDs
 		parts := make([]string, n)
 		list = make([]string, n)
 		for i := 0; i < n; i++ {
-			parts[i] = cyc(fam, i*7)
-			list[i] = cyc(fam, i*11+3) + "+"
+			parts[i] = cyc(fam, i)
+			list[i] = cyc(fam, n-1-i)
 		}
 		expr = join(parts, "AND")
 	case "long-list":
@@ -324,23 +325,50 @@ func judge(c CostCase, s1, s2 costSample) Outcome {
 	return pass()
 }
 
-// judgeSeries judges the newest sample against its predecessor (allocation, absolute bounds) and
-// against the latest earlier sample that is at most 2/3 as long (CPU time).
-func judgeSeries(c CostCase, ns []int, hist []costSample, s2 costSample) Outcome {
-	if len(hist) == 0 {
-		return judge(c, s2, s2)
+// growthJudge applies the growth law along one escalating series. Allocation and CPU of a family
+// need not be smooth in n (a short-circuit may end an evaluation early for one n and late for the
+// next), so a single steep step is not a verdict: a growth-law violation needs TWO consecutive
+// steep steps — which an exponential family produces at once, at the cost of one more
+// multiplication — while the absolute bounds for short inputs are judged immediately.
+type growthJudge struct {
+	c       CostCase
+	ns      []int
+	hist    []costSample
+	pending *Outcome
+}
+
+func (g *growthJudge) add(n int, s2 costSample) Outcome {
+	defer func() { g.ns, g.hist = append(g.ns, n), append(g.hist, s2) }()
+	c := g.c
+	c.N2 = n
+	if len(g.hist) == 0 {
+		return judge(c, s2, s2) // absolute bounds only
 	}
-	c.N1 = ns[len(hist)-1]
-	if out := judge(c, hist[len(hist)-1], s2); !out.OK {
-		return out
-	}
-	for i := len(hist) - 1; i >= 0; i-- {
-		if 3*hist[i].L <= 2*s2.L {
-			c.N1 = ns[i]
-			return judge(c, hist[i], s2)
+	c.N1 = g.ns[len(g.hist)-1]
+	out := judge(c, g.hist[len(g.hist)-1], s2)
+	if out.OK {
+		for i := len(g.hist) - 1; i >= 0; i-- { // CPU: against the latest sample at most 2/3 as long
+			if 3*g.hist[i].L <= 2*s2.L {
+				c.N1 = g.ns[i]
+				out = judge(c, g.hist[i], s2)
+				break
+			}
 		}
 	}
-	return pass()
+	if out.OK {
+		g.pending = nil
+		return out
+	}
+	if strings.Contains(out.Msg, "bytes of arguments") { // absolute bound: a verdict on its own
+		return out
+	}
+	if g.pending == nil {
+		g.pending = &out
+		return pass()
+	}
+	first := *g.pending
+	out.Msg = first.Msg + "; and again at the next size: " + out.Msg
+	return out
 }
 
 // checkC14Growth measures n1 and n2 of a family (used by replay; the sweep reuses its samples).
@@ -348,23 +376,25 @@ func checkC14Growth(c CostCase, prev *costSample) Outcome {
 	if c.Schema != nil {
 		return checkC14Schema(c)
 	}
-	if c.N1 <= 0 {
-		c.N1 = c.N2
+	ns := c.Ns
+	if len(ns) == 0 {
+		ns = []int{c.N1, c.N2}
 	}
-	e1, l1 := buildFamily(c.Family, c.N1)
-	e2, l2 := buildFamily(c.Family, c.N2)
-	var s1 costSample
-	var p string
-	if prev != nil {
-		s1 = *prev
-	} else if s1, p = measure(c.Entry, e1, l1); p != "" {
-		return fail("C14/panic/"+c.Family, "panic: %s", p)
+	g := &growthJudge{c: c}
+	for _, n := range ns {
+		if n <= 0 {
+			continue
+		}
+		e, l := buildFamily(c.Family, n)
+		s, p := measure(c.Entry, e, l)
+		if p != "" {
+			return fail("C14/panic/"+c.Family, "panic: %s", p)
+		}
+		if out := g.add(n, s); !out.OK {
+			return out
+		}
 	}
-	s2, p := measure(c.Entry, e2, l2)
-	if p != "" {
-		return fail("C14/panic/"+c.Family, "panic: %s", p)
-	}
-	return judge(c, s1, s2)
+	return pass()
 }
 
 func checkC14Absolute(c CostCase) Outcome {
@@ -428,6 +458,13 @@ func startWatchdog(rec *Recorder, t *testing.T) (stop func()) {
 	return func() { close(done) }
 }
 
+func max0(x int) int {
+	if x < 0 {
+		return 0
+	}
+	return x
+}
+
 func firstN(s string, n int) string {
 	if len(s) > n {
 		return s[:n]
@@ -447,8 +484,7 @@ func TestC14_Families(t *testing.T) {
 			if cfg.Thorough() {
 				max = f.maxT
 			}
-			var hist []costSample
-			var ns []int
+			g := &growthJudge{c: CostCase{Family: f.name, Entry: entry}}
 			prevN := 0
 			for n := f.start; n <= max; {
 				c := CostCase{Family: f.name, Entry: entry, N1: prevN, N2: n}
@@ -462,11 +498,8 @@ func TestC14_Families(t *testing.T) {
 				}
 				rec.Case(n >= 8, fmt.Sprintf("%s/%d/%s", f.name, n, entry),
 					map[string]any{"family": f.name, "n": n, "entry": entry, "input_bytes": s.L, "alloc_bytes": s.Alloc, "mallocs": s.Malloc, "cpu_ms": s.CPU.Milliseconds(), "input_head": firstN(expr, 70)}, "family-"+f.name)
-				if out := judgeSeries(c, ns, hist, s); !out.OK {
-					// the baseline the verdict used is recorded for the replay
-					if m := regexp.MustCompile(`\(n=(\d+),`).FindStringSubmatch(out.Msg); m != nil {
-						c.N1, _ = strconv.Atoi(m[1])
-					}
+				if out := g.add(n, s); !out.OK {
+					c.Ns = append([]int{}, g.ns[max0(len(g.ns)-8):]...) // the sizes the verdict rests on (replay re-measures them)
 					rec.Violate("c14-growth", out.Key, out.Msg, c)
 					break
 				}
@@ -474,8 +507,10 @@ func TestC14_Families(t *testing.T) {
 					rec.Note("%s/%s: escalation stopped at n=%d (alloc %d MB, cpu %v)", f.name, entry, n, s.Alloc>>20, s.CPU)
 					break
 				}
-				hist, ns, prevN = append(hist, s), append(ns, n), n
+				prevN = n
 				switch {
+				case g.pending != nil: // a steep step awaits confirmation: take a small one
+					n += 1 + n/12
 				case f.product:
 					step := n / 4
 					if step < 1 {
@@ -668,25 +703,22 @@ func schemaSizes(limit int) []int {
 }
 
 func checkC14Schema(c CostCase) Outcome {
-	var hist []costSample
-	var ns []int
+	cc := c
+	cc.Family = "generated " + c.Schema.describe()
+	g := &growthJudge{c: cc}
 	for _, n := range schemaSizes(c.N2) {
 		expr := c.Schema.build(n)
 		s, p := measure(c.Entry, expr, c.Schema.List)
 		if p != "" {
 			return fail("C14/panic/"+expr, "panic: %s", p)
 		}
-		cc := c
-		cc.N2 = n
-		cc.Family = "generated " + c.Schema.describe()
-		if out := judgeSeries(cc, ns, hist, s); !out.OK {
+		if out := g.add(n, s); !out.OK {
 			out.Key = fmt.Sprintf("C14/growth/generated/%s/%s", c.Entry, c.Schema.describe())
 			return out
 		}
 		if s.Alloc > 256<<20 || s.CPU > 3*time.Second {
 			break
 		}
-		hist, ns = append(hist, s), append(ns, n)
 	}
 	return pass()
 }
